@@ -64,6 +64,7 @@ type AVal struct {
 	Steps Seq[AStep]    `json:"steps,omitempty"`
 	Es    Seq[*AExpr]   `json:"es,omitempty"`
 	Items Seq[AObjItem] `json:"items,omitempty"`
+	Addr  []string      `json:"addr,omitempty"` // legref: the address the written reference declares
 }
 
 // AsExpr: the value as an abstract expression (nil for the simple value kinds)
